@@ -114,6 +114,13 @@ def check_waits(chk, quick):
         past = fmt_offset(BASE_MS - 3600000, 330)
         cases.append(("timestamp-past", tz, {"Timestamp": past}, {}, None, 0, False))
         cases.append(("timestamp-redelivered", tz, {"Timestamp": fmt_offset(BASE_MS + 8000, -210)}, {}, None, 0, True))
+    if not quick:
+        # every UTC offset at minute granularity, as the Timestamp of a Wait state (each one a full engine run on the clock)
+        for off in range(-1439, 1440):
+            frac = rng.choice([None, None, 3, 6])
+            target = 5000 + (137 if frac else 0)
+            text = fmt_offset(BASE_MS + target, off, frac, zulu=False)
+            cases.append(("timestamp-every-offset", rng.choice(tzs), {"Timestamp": text}, {}, None, rng.choice([0, 0, 9000]), False))
     for kind, tz, fields, data, rel_ms, late, redeliver in cases:
         m = wait_machine(fields)
         exit_t, delivered_at, fv, s, ea = run_wait(m, data, late_ms=late, crash_mid_wait=redeliver, tz=tz)
